@@ -28,7 +28,7 @@ ASSUMPTIONS = ["model = contract in pyairtouch/api.py + vendor PDFs (refmodel.py
                "(recorded under C05 as known findings)",
                "spill+bypass both set, battery bit of a sensorless zone, error text before the "
                "first answer of an error episode: undecided"]
-REQUIRED_OBS = ["slow_subscriber_sessions", "frames_compared", "ac_values_seen", "zone_values_seen", "timer_frames",
+REQUIRED_OBS = ["one_slow_subscriber_sessions", "slow_subscriber_sessions", "frames_compared", "ac_values_seen", "zone_values_seen", "timer_frames",
                 "error_episodes", "version_frames", "ia_fan_values"]
 SOAK = True   # also judged by the whole-run monitors of the soak sessions (vf/soak.py)
 BUDGET = {"quick": 100, "thorough": 1500}
@@ -143,7 +143,7 @@ def cases(tier, seed):
     for i in range(24 if tier == "quick" else 3000):
         yield {"k": "slow", "gen": rnd.choice((4, 5)), "seed": rnd.randrange(1 << 30),
                "n": rnd.randint(2, 6), "delay": rnd.choice([0.5, 6.5, 12.0]),
-               "gap": rnd.choice([0.0, 0.3, 2.0])}
+               "gap": rnd.choice([0.0, 0.3, 2.0]), "one_slow": i % 2 == 0}
 
 
 def make_frame(gen, rnd, w, combo, obs):
@@ -300,7 +300,38 @@ def run_slow(case):
                 z.subscribe(s)
                 subs.append(s)
         frames = []
-        for _ in range(case["n"]):
+        if case.get("one_slow"):
+            # only the subscriber of the FIRST entity of the frames is slow; frame A changes
+            # every entity, frame B (while that subscriber is still busy) repeats the first
+            # entity and changes the others again
+            for s in subs:
+                s.delay = 0.0
+            zones = w.inst["zones"]
+            use_zones = len(zones) >= 2
+            ents = zones if use_zones else w.inst["acs"]
+            if len(ents) >= 2:
+                first = ents[0]
+                fid = first["id"] if use_zones else first["status"]["ac"]
+                for s in subs:
+                    if s.name == (f"slow-zone{fid}" if use_zones else f"slow-ac{fid}"):
+                        s.delay = case["delay"]
+                for rnd_first in (True, False):
+                    for e in ents:
+                        if e is first and not rnd_first:
+                            continue
+                        if use_zones:
+                            e["status"] = rand_zone(gen, rnd, e["id"])
+                        else:
+                            e["status"] = rand_ac(gen, rnd, e["status"]["ac"])
+                            e["status"]["error"] = 0
+                    c = w.conn()
+                    raw = w.console.frame_zone_status() if use_zones else \
+                        w.console.frame_ac_status()
+                    frames.append(raw)
+                    w.console.send(c, raw)
+                    await asyncio.sleep(case["gap"])
+                obs["one_slow_subscriber_sessions"] = 1
+        for _ in range(case["n"] if not case.get("one_slow") else 0):
             c = w.conn()
             if c is None:
                 break
